@@ -431,6 +431,9 @@ func (fr *frame) applyContract(fc *FuncContract, key string, callee *ssa.Functio
 	bindResults(env, sig, res)
 	for _, e := range fc.Ensures {
 		s.assume(st, s.evalBool(env, e.E))
+		if e.Assumed {
+			s.Trusted[key+" assumes "+e.Label+": "+e.Src] = true
+		}
 	}
 	for _, u := range fc.Uses {
 		s.useAxiom(u)
